@@ -325,6 +325,16 @@ class Interp:
                 return
         cur = self.eval(self.as_load(st.target), fr, guard)
         rhs = self.eval(st.value, fr, guard)
+        if isinstance(cur, Arr) and isinstance(st.target, ast.Name):
+            # numpy semantics: `a += x` updates the array object in place (every alias sees it), it does not rebind the name
+            cells = self.ctx.heap.st[cur.sid]
+            for (ix, pos) in cur.indices():
+                r = rhs
+                if isinstance(rhs, Arr):
+                    pad = len(cur.shape) - len(rhs.shape)
+                    r = self.arr_get(rhs, tuple(0 if rhs.shape[d] == 1 else ix[d + pad] for d in range(len(rhs.shape))))
+                cells[pos] = self.binop(st.op, cells[pos], r)
+            return
         self.assign(st.target, self.binop(st.op, cur, rhs), fr, guard)
 
     def as_load(self, t):
@@ -883,6 +893,9 @@ class Interp:
         if isinstance(a, MStr) and isinstance(b, (list, tuple)) and all(isinstance(x, str) for x in b) and isinstance(op, (ast.In, ast.NotIn)):
             r = z3.Or(*[a.eq_const(x) for x in b]) if b else z3.BoolVal(False)
             return r if isinstance(op, ast.In) else z3.Not(r)
+        if isinstance(a, MStr) and isinstance(b, MStr) and isinstance(op, (ast.Eq, ast.NotEq)):
+            r = a.eq_str(b)
+            return r if isinstance(op, ast.Eq) else z3.Not(r)
         if isinstance(a, MStr) or isinstance(b, MStr):
             if isinstance(b, MStr):
                 a, b = b, a
